@@ -39,7 +39,7 @@ func evaluateExpression(e *tree.Expression, retriever variable.Retriever, caller
 	case e.Operator != nil:
 		return evaluateBinaryOperation(*e.Operator, e.LeftOperand, e.RightOperand, retriever, caller)
 	}
-	return nil, nil
+	return nil, fmt.Errorf("cannot evaluate an empty expression (null is not supported)")
 }
 
 func evaluateBinaryOperation(operator int, leftOperand, rightOperand *tree.Expression, retriever variable.Retriever, caller functionCaller) (*variable.Value, error) {
